@@ -42,7 +42,9 @@ FIRST = {
     "C14-5": "missed by C14 (caught by C08): empty strings ordered last",
     "C15-6": "missed; alias patterns whose mistake sits after a line break",
     "C16-4": "missed; more than 128 directories visited in interleaved order",
-    "C19-4": "missed; the processed entry is a symbolic link to the file",
+    "C19-4": "the check CRASHED (exit 2: it called a private helper whose signature the change altered); implementation exceptions are now broken correspondence; plus: the processed entry is a symbolic link to the file",
+    "C12-4": "missed by C12, C15 HUNG (28 min); per-case alarm and time-limited shrinking; alias sets referring to each other against the registration order",
+    "C12-5": "missed; names the template language cannot spell offered as alias / ad-hoc names, every listed alias or ad-hoc tag must be usable in a template",
 }
 rows = ["| seed | change (as its author described it) | detected by | first attempt |", "|---|---|---|---|"]
 for d in sorted(glob.glob(str(VERIF / "seeded" / "*"))):
